@@ -148,7 +148,7 @@ fn s_prune(t: &mut Tape, ctx: &mut Ctx) -> Result<(), Failure> {
 }
 
 pub fn streams() -> Vec<Stream> {
-    vec![Stream { name: "prune", kind: Kind::Tape { cases: |t: Tier| t.pick(3_000, 100_000), max_len: 420, f: s_prune }, isolate: false }]
+    vec![Stream { name: "prune", kind: Kind::Tape { cases: |t: Tier| t.pick(12_000, 300_000), max_len: 420, f: s_prune }, isolate: false }]
 }
 
 pub fn def() -> PropertyDef {
